@@ -403,6 +403,10 @@ def twins(R, ctx):
     for k_ in ORACLE2:
         if k_ not in seen:
             R.bad('R07.4', f"NamingState::writes_direct|{k_[0]}|{k_[1]}", "row missing", where=sb.loc())
+    cleanup_flag_provenance(R, ctx)
+
+
+def cleanup_flag_provenance(R, ctx):
     # which predicate is used where: start-up uses Naming's, rotation NamingState's; both are handed to cleanup as the flag
     for fn, which in (('State::initialize_with_rotation', 'Naming::writes_direct'), ('State::mount_next_linewriter_if_necessary', 'NamingState::writes_direct')):
         b = ctx.body(rf'::{fn}$')
@@ -460,6 +464,11 @@ def current_spared(R, ctx):
     R.check('R07.5', 'Numbrs-rejects-rCURRENT', res == {'False'}, f"InfixFilter::Numbrs.filter_infix({cur!r}) = false on every path",
             f"the number filter accepts the current-file infix {cur!r} ({sorted(res)}): the file being written becomes a cleanup candidate", where=fb.loc(),
             sample={'CURRENT_INFIX': cur, 'result': sorted(res)})
+    cleanup_filter_provenance(R, ctx)
+
+
+def cleanup_filter_provenance(R, ctx):
+    f = ctx.f
     # the filter handed to cleanup derives from naming_state.infix_filter()
     for fn in ('State::initialize_with_rotation', 'State::mount_next_linewriter_if_necessary'):
         b = ctx.body(rf'::{fn}$')
